@@ -10,6 +10,7 @@ import (
 	mrand "math/rand"
 	"os"
 	"runtime/debug"
+	"strconv"
 	"strings"
 	"sync/atomic"
 	"time"
@@ -30,7 +31,7 @@ type c11Case struct {
 	Ops  []string    `json:"ops"` // writeto write reader reader1 updatereader tofile totmp skipmw send failsink:<k> failprod:<producer>
 }
 
-var c11Ops = []string{"writeto", "write", "reader", "reader1", "updatereader", "tofile", "totmp", "skipmw", "send", "failsink", "failprod"}
+var c11Ops = []string{"writeto", "write", "reader", "reader1", "updatereader", "partialupdate", "tofile", "totmp", "skipmw", "send", "failsink", "failprod"}
 
 func canon8bit(s *gen.MsgSpec) {
 	for i := range s.Parts {
@@ -150,6 +151,18 @@ func runC11Case(r *ev.Run, c c11Case, env *gen.Env) {
 					}
 				}
 				out = b.Bytes()
+			case "partialupdate":
+				// a Reader that has been read in part (not to EOF), then refreshed, then read to the end
+				rd = m.NewReader()
+				k, _ := strconv.Atoi(arg)
+				if _, operr = io.ReadFull(rd, make([]byte, k)); operr != nil && operr != io.ErrUnexpectedEOF && operr != io.EOF {
+					break
+				}
+				m.UpdateReader(rd)
+				out, operr = io.ReadAll(rd)
+				if operr == nil {
+					operr = rd.Error()
+				}
 			case "updatereader":
 				if rd == nil {
 					rd = m.NewReader()
@@ -318,6 +331,8 @@ func genC11Ops(rng *mrand.Rand, s *gen.MsgSpec, n int) []string {
 			op = "writeto" // WriteToSkipMiddleware is not one of the paths the property names; it does not sign
 		}
 		switch op {
+		case "partialupdate":
+			op = fmt.Sprintf("%s:%d", op, gen.Pick(rng, []int{1, 7, 64, 200, 1000, rng.Intn(3000)}))
 		case "failsink":
 			op = fmt.Sprintf("failsink:%d", rng.Intn(2500))
 		case "failprod":
@@ -349,7 +364,7 @@ func runC11(r *ev.Run, rep *ev.ReplayDoc) ev.Summary {
 	env.Dir = d
 	defer env.Cleanup()
 	sum := ev.Summary{
-		Rule: "seeded message specs (all file sources incl. os files, read-seekers on os.File, fs.FS, templates; all file encodings; S/MIME on a share) x operation sequences of length 2-5 over {WriteTo, Write, NewReader+ReadAll, 7-byte Reads, UpdateReader, WriteToFile, WriteToTempFile, WriteToSkipMiddleware, Send via reference server, failing-sink render, failing-producer render}; all pairs of operations enumerated, longer sequences sampled. Every successful output must equal the first successful output byte for byte. non-trivial = message has a file or >=2 parts; distinct by (shape, ops)",
+		Rule: "seeded message specs (all file sources incl. os files, read-seekers on os.File, fs.FS, templates; all file encodings; S/MIME on a share) x operation sequences of length 2-5 over {WriteTo, Write, NewReader+ReadAll, 7-byte Reads, UpdateReader, a Reader read in part and then refreshed by UpdateReader, WriteToFile, WriteToTempFile, WriteToSkipMiddleware, Send via reference server, failing-sink render, failing-producer render}; all pairs of operations enumerated, longer sequences sampled. Every successful output must equal the first successful output byte for byte. non-trivial = message has a file or >=2 parts; distinct by (shape, ops)",
 		Assumptions: []string{
 			"for Send the payload is what the reference server committed (dot-unstuffed); contents of 8bit/7bit entities are canonical CRLF so that SMTP's bare-LF canonicalisation does not blur the comparison",
 			"S/MIME: the outer boundary and the signature legitimately change per render; the top-level header (boundary masked) and the signed entity are compared",
@@ -366,7 +381,7 @@ func runC11(r *ev.Run, rep *ev.ReplayDoc) ev.Summary {
 		return sum
 	}
 	// all ordered pairs of the basic operations on a fixed set of specs, then sampled sequences
-	basic := []string{"writeto", "write", "reader", "reader1", "updatereader", "tofile", "totmp", "skipmw", "send", "failsink:100", "failprod:*"}
+	basic := []string{"writeto", "write", "reader", "reader1", "updatereader", "partialupdate:64", "tofile", "totmp", "skipmw", "send", "failsink:100", "failprod:*"}
 	var cases []c11Case
 	nspec := r.Pick(6, 40)
 	for si := 0; si < nspec; si++ {
